@@ -6,6 +6,7 @@
 -/
 import Driver.Util
 import Driver.Delta
+import Driver.Engine
 
 namespace Driver
 
@@ -16,6 +17,7 @@ def dispatch (toks : List String) : String :=
     let area := (cmd.splitOn ".").headD ""
     let r : Option String :=
       if area == "adler" || area == "delta" then Driver.Delta.handle toks
+      else if area == "engine" then Driver.Engine.handle toks
       else none
     r.getD "bad-op"
 
